@@ -9,7 +9,29 @@ import Mathlib.Algebra.BigOperators.Ring.Finset
 import Mathlib.Analysis.Calculus.Deriv.Add
 import Mathlib.Analysis.Calculus.Deriv.Mul
 /-!
-# C16 extension — the FC layer: totality of `Forward`, and the parameter / input gradients
+# C16 extension — the FC layer: totality of `Forward`, the graph it builds, and the parameter / input gradients
+
+Go: `component/layers/fc.go`, `(*FC).forward`: `W.UnSqueeze(1)`, `x.UnSqueeze(1)`, `MatMul`, `SumAlong(2)`, `Add(B)`;
+Model: `Qeep.fcForward`. With `W, B : [O]`, `x : [N, D]`:
+
+* `fc_forward_graph` — on valid input `Forward` **always** returns `ok`; it allocates exactly nine tensors whose values
+  *and gradient contexts* (back edges) are listed in `FCGraph`; nothing else changes.
+  Corollaries `fc_forward_total`, `fc_forward_value` (the formula without the "whenever it returns ok" premise of
+  `C16.fc_forward`; `fc_forward_value'` is literally totality + `C16.fc_forward`).
+* `fc_backpaths` — `pathB`, `pathW`, `pathX` are the paths of back edges from the result to `B`, `W`, `x` in that graph
+  (towards tracked targets, nothing spent): the edges `BackPropagate` follows.
+* `fc_grad_bias`, `fc_grad_weight`, `fc_grad_input` (any scalar type, sums in execution order) — composing the backward
+  rules (`evalRule`, `BMode.sum`) along those paths from an upstream gradient `G : [N, O]` gives tensors of the
+  parameters' shapes with `dB[o] = Σ_n G[n][o]`, `dW[o] = Σ_n Σ_d G[n][o]·x[n][d]`, `dx[n][d] = Σ_o W[o]·G[n][o]`.
+  The input path has no expanding `Broadcast`, so `fc_grad_input` holds in `mean` mode as well.
+* `fc_grad_bias_mean` — the code as it is (`BMode.mean`, finding D2): `dB[o] = (Σ_n G[n][o]) / N`.
+* over `ℝ`: `fc_forward_backward` (everything in one statement, textbook form with `Finset` sums),
+  `fc_vjp_is_derivative` (those sums are the partial derivatives of `Σ G[n][o]·y[n][o]`, Mathlib `HasDerivAt`),
+  `fc_backward_is_gradient` (the delivered tensors hold exactly these derivatives).
+* kernel-checked examples on integer scalars, including the real `BackPropagate` on the FC graph in both modes.
+
+Not proved here: that `backprop` as a whole accumulates exactly these path results into `Gradient()` for an arbitrary
+enclosing graph (that is the chain-rule statement of C01 / C08; the examples check it on one concrete graph).
 -/
 set_option linter.unusedSimpArgs false
 set_option linter.unusedSectionVars false
